@@ -630,8 +630,11 @@ class UnionMetaType(StructureMetaType):
         return stream.tell() - offset
 
 
-def _rebind_pointers(value: Any, buf: BinaryIO, stream: BinaryIO) -> None:
-    """Let the pointers that were parsed from the private buffer of a union point into the stream the union came from."""
+def _rebind_pointers(value: Any, buf: BinaryIO, stream: BinaryIO | None) -> None:
+    """Let the pointers that were parsed from the private buffer of a union point into the stream the union came from.
+
+    A union that did not come from a stream (it was built from values) has pointers without a stream.
+    """
     if isinstance(value, Pointer):
         value._stream = stream
     elif isinstance(value, dict):
@@ -642,7 +645,7 @@ def _rebind_pointers(value: Any, buf: BinaryIO, stream: BinaryIO) -> None:
             _rebind_pointers(item, buf, stream)
     elif isinstance(value, Structure):
         if isinstance(value, Union) and "_stream" in value.__dict__:
-            object.__setattr__(value, "_stream", weakref.ref(stream))
+            object.__setattr__(value, "_stream", weakref.ref(stream) if stream is not None else None)
         _rebind_pointers({k: v for k, v in value.__dict__.items() if k != "_stream"}, buf, stream)
 
 
@@ -734,8 +737,8 @@ class Union(Structure, metaclass=UnionMetaType):
     def _update(self) -> None:
         buf = io.BytesIO(self._buf)
         result, sizes = self.__class__._read_fields(buf)
-        if (ref := getattr(self, "_stream", None)) is not None and (stream := ref()) is not None:
-            _rebind_pointers(result, buf, stream)
+        ref = getattr(self, "_stream", None)
+        _rebind_pointers(result, buf, ref() if ref is not None else None)
         self.__dict__.update(result)
         object.__setattr__(self, "_values", result)
         object.__setattr__(self, "_sizes", sizes)
